@@ -219,14 +219,17 @@ CLAIMS.update({
               'value is computed from the TREE are rendered with random spacing / redundant parentheses / literal spellings and must equal the '
               'constants table of the real assemble(); all 95 printable ASCII character literals; a constant in each of 21 operand positions '
               '(immediates, shift amounts, register aliases, data, %hi/%lo/%position, li) vs its literal value, both modes; the Lean model must '
-              'agree on every program. Known finding KF-C (character literals of , # ( ) and quotes).'),
+              'agree on every program. Character literals (BB.Props.C11Char): for every ASCII character c other than the backslash the line K = \'c\' lexes to three '
+              'tokens, parses to the definition of K and evaluates to the code point of c - comma, #, parentheses, blank and the quote included '
+              '(const_char; quoted_operand for any operand position; the escapes \'\\\\\' \'\\n\' \'\\x41\'; a lone backslash stays refused); the harness '
+              'assembles every printable character literal, alone, with a comment behind it and as an immediate / data value (repaired defect, fix 0465487).'),
         note=TB + ' Python-only expression syntax beyond the documented operators is unsupported (counted, never compared). A name as a branch/jal target is a reference, not a literal offset (documented operand meaning).',
         ref='DESIGN.md §5 C11'),
     'C13': dict(
         category='proof',
         technique='Lean 4 theorems on the lexer/parser model (sep_irrelevant, blank/comment lines, reg_spelling, int_spelling, base_offset_forms) + pairwise comparison of re-spelled programs on the real code',
         text=('Theorems (BB.Props.C13): replacing any separator run by any other, adding leading/trailing blanks or a trailing comment leaves the '
-              'token list unchanged (sep_irrelevant, for all ASCII lines that are not string/error lines); blank and comment-only lines yield no '
+              'token list unchanged (sep_irrelevant, for all ASCII lines that are not string/error lines and have no apostrophe in front of their comment - inside a quoted character a blank, a comma or # is that character, C11Char); blank and comment-only lines yield no '
               'item; every register spelling (number, xN, ABI alias, hex/binary/octal numeral) names its register; the two base+offset '
               'spellings of all 11 mnemonics parse to the same item from source text. Tie + oracle: each generated program is re-spelled 5-8 '
               'times, every line and operand independently, and the real assembler\'s bytes and ordered label tables must be pairwise equal in '
